@@ -10,8 +10,12 @@ Import ListNotations.
 Local Open Scope list_scope.
 Local Open Scope string_scope.
 
-Record sfield_ (T : Type) := mkSField { sf_name : string ; sf_type : T ; sf_req : bool ; sf_null : bool }.
+(* sf_null: the member may be null.  sf_nullta: (JSON Schema only) that nullable SCALAR member is written as a
+   type array, {"type": ["integer","null"], "minimum": 1}, instead of oneOf [T, null]; same meaning. *)
+Record sfield_ (T : Type) := mkSField
+  { sf_name : string ; sf_type : T ; sf_req : bool ; sf_null : bool ; sf_nullta : bool }.
 Arguments mkSField {T}. Arguments sf_name {T}. Arguments sf_type {T}. Arguments sf_req {T}. Arguments sf_null {T}.
+Arguments sf_nullta {T}.
 
 Inductive src_ty :=
 | SBool
